@@ -54,6 +54,13 @@ def task_kwargs(tid):
 enq_kinds = st.sampled_from(["ret", "ret", "ret", "raise", "gate", "partial", "partial-raise", "raise-badstr"])
 
 
+class FalsyError(Exception):
+    """An exception instance whose truth value is False (an error collection that is empty)"""
+
+    def __len__(self):
+        return 0
+
+
 class BadStrError(Exception):
     """An exception that cannot be rendered"""
 
@@ -75,7 +82,7 @@ def programs(draw, dependency=None, bounded=None):
         if k == "enq":
             main.append(("enq", draw(enq_kinds)))
         elif k == "joint":
-            main.append(("joint", draw(st.sampled_from([0.5, 1.0, 100.0]))))
+            main.append(("joint", draw(st.sampled_from([0.5, 1.0, 100.0, 0, 0.0]))))
         elif k == "sleep":
             # "T": exactly the pool's idle timeout, so that the controller wakes up at the very instant idle workers time out
             main.append(("sleep", draw(st.sampled_from([0.1, 10.0, 100.0, "T", "T"]))))
@@ -180,7 +187,7 @@ def run_program(prog, chooser, lines=False, policy=(), max_steps=150000):
 
     def make_task(kind, tid):
         info = {"kind": kind, "begun": 0, "ended": 0, "put_phase": None, "put_epoch": None,
-                "ret": returned_object(tid), "exc": BadStrError() if kind == "raise-badstr" else ValueError("task %d" % tid), "future": None, "by": None}
+                "ret": returned_object(tid), "exc": BadStrError() if kind == "raise-badstr" else (FalsyError("task %d" % tid) if tid % 3 == 0 else ValueError("task %d" % tid)), "future": None, "by": None}
         tasks[tid] = info
         gate = None
         if kind == "gate":
@@ -199,6 +206,7 @@ def run_program(prog, chooser, lines=False, policy=(), max_steps=150000):
                 bad("C09/executed-twice", "task %d executed twice" % tid)
             if st_["phase"] == "stopped":
                 bad("C09/ran-while-stopped", "task %d began after stop() had returned and before the next start()" % tid)
+                bad("C11/task-started-after-stop", "task %d began after stop() had returned and before the next start()" % tid)
             st_["inbody"] += 1
             if st_["inbody"] > mx:
                 bad("C10/too-many-running", "%d tasks in their body with max_threads=%d" % (st_["inbody"], mx))
@@ -272,6 +280,11 @@ def run_program(prog, chooser, lines=False, policy=(), max_steps=150000):
     sched.on_event = on_event
 
     def on_quiescent(s):
+        # -- a join with a timeout waits with a timeout: when nothing can move any more, the controller
+        # inside join(t) is either not blocked or has a timer pending
+        tj = st_.get("in_timed_join")
+        if tj is not None and tj[0].state == "blocked" and tj[0].wait is not None and tj[0].wait[1] is None:
+            bad("C11/join-timeout-ignored", "join(%r) waits without any timeout (%s)" % (tj[1], s.describe()))
         # -- monitors first (C09 lost task / C10 starvation)
         # (while an enqueue() is blocked on a full bounded queue it holds the pool lock by
         # design: workers cannot make progress until the queue timeout, nothing is judged then)
@@ -352,7 +365,11 @@ def run_program(prog, chooser, lines=False, policy=(), max_steps=150000):
                 sched.emit("op-call", op=kind, phase=st_["phase"])
                 if st_["inbody"]:
                     run.stats["join-with-task-in-body"] += 1
-                r = pool.join() if kind == "join" else pool.join(op[1])
+                st_["in_timed_join"] = (sched.me(), op[1]) if kind == "joint" else None
+                try:
+                    r = pool.join() if kind == "join" else pool.join(op[1])
+                finally:
+                    st_["in_timed_join"] = None
                 sched.emit("op-return", op=kind, result=r)
                 if r is True or (kind == "join" and r is not False):
                     ep = st_["epoch"]
